@@ -10,6 +10,7 @@
 //   mc1|mc2 <data> <size> <command> <parsed_size> <cmdsize>
 //   fat <size> <offset> <asize>
 //   loop <i> <nsec>
+//   exo|exf|exn <avail> <NumberOfFunctions> <NumberOfNames>
 //   rva <hex file> <rva> <rva> ...
 #include "hcommon.h"
 #include <stdbool.h>
@@ -70,6 +71,15 @@ int main(void)
       yr_fat_arch_64_t arch; memset(&arch, 0, sizeof arch);
       arch.offset = a[1]; arch.size = a[2];
       printf("%d\n", c06_macho_fat_arch_ok(a[0], arch));
+    }
+    else if (!strcmp(cmd, "exo") || !strcmp(cmd, "exf") || !strcmp(cmd, "exn"))
+    {
+      // <avail> <NumberOfFunctions> <NumberOfNames>: the guards of pe_parse_exports as written in pe.c
+      IMAGE_EXPORT_DIRECTORY ed; memset(&ed, 0, sizeof ed);
+      ed.NumberOfFunctions = (DWORD) a[1]; ed.NumberOfNames = (DWORD) a[2];
+      int r = cmd[2] == 'o' ? c06_exp_ordinals_rejects((size_t) a[0], &ed)
+            : cmd[2] == 'f' ? c06_exp_functions_rejects((size_t) a[0], &ed) : c06_exp_names_rejects((size_t) a[0], &ed);
+      printf("%d\n", r);
     }
     else if (!strcmp(cmd, "loop"))
     {
